@@ -1,93 +1,84 @@
 package rules
 
 import (
-	"go/ast"
-	"go/types"
+	"fmt"
+	"go/token"
+	"sort"
+	"strings"
 
 	"osmcheck/core"
 )
 
-// c10K6: the numeric text of an id is parsed with a width that accepts the whole field range
-// (references up to 2^40-1, versions up to 2^16-1), base 10. A narrower strconv bit size makes the
-// textual form of valid ids unparseable (String then Parse is no longer the identity).
+// c10K6: the numeric text of an id is parsed base 10 with a width that accepts the whole field range
+// (references up to 2^40-1, versions up to 2^16-1). A narrower strconv bit size makes the textual form of
+// valid ids unparseable (String then Parse is no longer the identity).
+//
+// The strconv calls are found by *role*, not by place: each parser is evaluated on the texts String() produces
+// (K5) and every strconv.ParseInt/ParseUint/Atoi reached with the decimal text of the reference / of the
+// version is recorded, wherever it lives (the parser itself or any helper it calls).
 func c10K6(r *core.R) {
-	pk := r.P.Pkg("")
-	info := pk.TypesInfo
-	for _, name := range []string{"ParseObjectID", "ParseElementID", "ParseFeatureID"} {
-		fi := findFunc(pk, name)
-		if fi == nil {
-			r.Anchor(name)
-			continue
+	m := c10Load(r)
+	if m == nil {
+		return
+	}
+	for _, p := range c10Parsers(m, true) {
+		p.checkFormat(false)
+		roles := []struct {
+			name string
+			v    c10Vec
+			need int64
+		}{{"reference", p.ref, c10RefBits}, {"version", p.ver, c10VerBits}}
+		if p.packed == "FeatureID" {
+			roles = roles[:1]
 		}
-		// slices produced by strings.Split(x, ":")
-		colonSplit := map[types.Object]bool{}
-		ast.Inspect(fi.Decl.Body, func(n ast.Node) bool {
-			as, ok := n.(*ast.AssignStmt)
-			if !ok || len(as.Lhs) != 1 || len(as.Rhs) != 1 {
-				return true
-			}
-			call, ok := as.Rhs[0].(*ast.CallExpr)
-			if !ok || !isPkgFunc(callee(info, call), "strings", "Split") || len(call.Args) != 2 {
-				return true
-			}
-			if s, ok := constString(info, call.Args[1]); ok && s == ":" {
-				colonSplit[objOf(info, as.Lhs[0])] = true
-			}
-			return true
-		})
-		n := 0
-		ast.Inspect(fi.Decl.Body, func(x ast.Node) bool {
-			call, ok := x.(*ast.CallExpr)
-			if !ok {
-				return true
-			}
-			fn := callee(info, call)
-			signed := false
-			switch {
-			case isPkgFunc(fn, "strconv", "ParseInt"):
-				signed = true
-			case isPkgFunc(fn, "strconv", "ParseUint"):
-			case isPkgFunc(fn, "strconv", "Atoi"):
-				n++
-				r.Bad("width@"+name+" "+src(r.P.Fset, call), call.Pos(), "strconv.Atoi parses into int, which is 32 bits on 32-bit platforms: references above 2^31 in the textual form cannot be parsed back")
-				return true
-			default:
-				return true
-			}
-			n++
-			c := "width@" + name + " " + src(r.P.Fset, call.Args[0])
-			isVersion := false
-			if ix, ok := ast.Unparen(call.Args[0]).(*ast.IndexExpr); ok {
-				if v, okc := constInt(info, ix.Index); okc && v == 1 && colonSplit[objOf(info, ix.X)] {
-					isVersion = true
+		m.ev.resetScenario()
+		accepts := p.accepts()
+		for _, a := range accepts {
+			p.run(a.text)
+		}
+		calls := m.ev.parses
+		m.ev.resetScenario()
+		for _, role := range roles {
+			c := "width@" + p.name() + " " + role.name
+			seen := map[token.Pos]bool{}
+			var oks []string
+			bad, unk := "", ""
+			var pos token.Pos
+			for _, pc := range calls {
+				if !pc.V.sameLanes(role.v) || seen[pc.Call.Pos()] {
+					continue
+				}
+				seen[pc.Call.Pos()] = true
+				pos = pc.Call.Pos()
+				need := role.need
+				if pc.Signed {
+					need++
+				}
+				text := c10Src(r, pc.Call)
+				switch {
+				case !pc.Known:
+					unk = fmt.Sprintf("non-constant base or bit size in `%s`", text)
+				case pc.Base != 10:
+					bad = fmt.Sprintf("`%s` parses the %s with base %d; String() prints decimal", text, role.name, pc.Base)
+				case pc.Fn == "Atoi" && need > 32:
+					bad = fmt.Sprintf("`%s` parses into int, which is 32 bits on 32-bit platforms: the %s (%d bits) in the textual form cannot be parsed back", text, role.name, role.need)
+				case pc.Bits < need:
+					bad = fmt.Sprintf("`%s` accepts only %d-bit %s values but the %s needs %d bits: the textual form of valid ids (the output of String) is rejected", text, pc.Bits, map[bool]string{true: "signed", false: "unsigned"}[pc.Signed], role.name, need)
+				default:
+					oks = append(oks, fmt.Sprintf("`%s`: base 10, %d bits >= the %d needed", text, pc.Bits, need))
 				}
 			}
-			need := int64(40)
-			what := "reference (40 bits)"
-			if isVersion {
-				need, what = 16, "version (16 bits)"
-			}
-			if signed {
-				need++
-			}
-			base, okb := constInt(info, call.Args[1])
-			bits, okw := constInt(info, call.Args[2])
+			sort.Strings(oks)
 			switch {
-			case !okb || !okw:
-				r.Unknown(c, call.Pos(), "non-constant base or bit size in `%s`", src(r.P.Fset, call))
-			case base != 10:
-				r.Bad(c, call.Pos(), "`%s` parses with base %d; String() prints decimal", src(r.P.Fset, call), base)
-			case bits == 0 && need > 32:
-				r.Bad(c, call.Pos(), "`%s` parses into the platform int (32 bits on GOARCH=386): the %s does not fit", src(r.P.Fset, call), what)
-			case bits != 0 && bits < need:
-				r.Bad(c, call.Pos(), "`%s` accepts only %d-bit %s values but the %s needs %d bits: the textual form of valid ids (the output of String) is rejected", src(r.P.Fset, call), bits, map[bool]string{true: "signed", false: "unsigned"}[signed], what, need)
+			case bad != "":
+				r.Bad(c, pos, "%s", bad)
+			case unk != "":
+				r.Unknown(c, pos, "%s", unk)
+			case len(oks) == 0:
+				r.Unknown(c, p.fi.Decl.Pos(), "evaluating %s on the texts %s prints reaches no strconv parse of the decimal %s: how the number is read is not among the interpreted forms", p.name(), p.strFi.Name(), role.name)
 			default:
-				r.OK(c, call.Pos(), "`%s`: base 10, %d bits >= the %d needed for the %s", src(r.P.Fset, call), bits, need, what)
+				r.OK(c, pos, "the decimal %s of every text String() prints is read by %s", role.name, strings.Join(oks, "; "))
 			}
-			return true
-		})
-		if n == 0 {
-			r.Anchor("strconv parse call in " + name)
 		}
 	}
 }
